@@ -1079,6 +1079,14 @@ func runC07(tb report.TB, rep *report.Reporter, c c07Case) {
 	}
 	var results []entity.MergeResult
 	var rc *cache.RepoCache
+	// a third of the cache-level merges run in a repository where no user identity is selected (a mirror, a fresh
+	// clone before `user adopt`): nobody can author a merge commit there; the pull may refuse as a whole, it may not crash
+	noUser := c.Layer == "cache" && c.Seed%3 == 0
+	if noUser {
+		_ = repo.LocalConfig().RemoveAll("git-bug.identity")
+		defer func() { _ = identity.SetUserIdentity(repo, env.authors[0].(*identity.Identity)) }()
+		rep.Class("merged-without-a-selected-user-identity", 1)
+	}
 	if c.Layer == "cache" {
 		_ = os.RemoveAll(filepath.Join(env.dir, ".git", "git-bug", "cache"))
 		rc, err = cache.NewRepoCacheNoEvents(repo)
@@ -1112,6 +1120,14 @@ func runC07(tb report.TB, rep *report.Reporter, c c07Case) {
 	describe := "no report"
 	if mine != nil {
 		describe = fmt.Sprintf("status=%v err=%v reason=%q", mine.Status, mine.Err, mine.Reason)
+	}
+	if noUser && mine == nil {
+		for _, r := range results {
+			if r.Err != nil {
+				refused = true // the merge of that kind of entity was refused as a whole
+				describe = "whole merge refused: " + r.Err.Error()
+			}
+		}
 	}
 	if op.Must {
 		if !refused {
